@@ -12,14 +12,15 @@ CONSTANT MaxReq
 DB == "sha256:b"  DM == "sha256:m"  DR == "sha256:r"
 U(p) == [n |-> 3, dg |-> <<DB, DM, DR>>, subj |-> <<0, 0, 2>>, isman |-> <<FALSE, TRUE, TRUE>>, repo |-> "app", lib |-> "lib",
          tagnames |-> {"t1"}, profile |-> p]
-Profiles == [referrers : BOOLEAN, digesthdr : {TRUE}, range : {FALSE}, mount : BOOLEAN, pagelimit : {0}]
+Profiles == [referrers : BOOLEAN, digesthdr : {TRUE}, range : {FALSE}, mount : BOOLEAN, pagelimit : {0}, strictaccept : BOOLEAN]
+MTM == "application/vnd.oci.image.manifest.v1+json"
 
 VARIABLES u, st, nreq, last
 vars == <<u, st, nreq, last>>
 
 Req(method, route, repo, ref, query, body) ==
   [method |-> method, route |-> route, repo |-> repo, ref |-> ref, query |-> query, bodydg |-> body, bodylen |-> 1,
-   reqct |-> "application/vnd.oci.image.manifest.v1+json", range |-> "", upid |-> "up1",
+   reqct |-> MTM, range |-> "", upid |-> "up1", acceptl |-> <<>>,
    path |-> "/v2/" \o repo \o (CASE route = "blob" -> "/blobs/" \o ref [] route = "manifest" -> "/manifests/" \o ref
                                  [] route = "uploadstart" -> "/blobs/uploads/" [] route = "uploadput" -> "/blobs/uploads/" \o ref
                                  [] route = "tags" -> "/tags/list" [] OTHER -> "/referrers/" \o ref)]
@@ -32,6 +33,7 @@ Requests ==
   \cup {Req("POST", "uploadstart", "app", "", [mount |-> DB, from |-> "lib"], "")}
   \cup {Req("PUT", "uploadput", r, "up1", [digest |-> DB], d) : r \in {"app", "lib"}, d \in {DB, DM}}
   \cup {Req("GET", "referrers", "app", DM, NoQ, "")}
+  \cup {[Req("GET", "manifest", "app", ref, NoQ, "") EXCEPT !.acceptl = a] : ref \in {DM, "t1"}, a \in {<<MTM>>, <<"application/vnd.other">>, <<"*/*">>}}
 
 Init == u \in {U(p) : p \in Profiles} /\ st = EmptyState /\ nreq = 0 /\ last = [status |-> 0, allowed |-> FALSE]
 Next ==
@@ -45,5 +47,7 @@ Spec == Init /\ [][Next]_vars
 TagsPointToManifests == \A t \in st.tags : <<t[1], t[3]>> \in st.manifests
 UploadsBelong == \A s \in st.uploads : s[2] \in {"app", "lib"}
 AllowedAnswered == last.allowed => last.status # 0
+\* a manifest is refused for its media type only by a registry that negotiates, and never to a request that accepts it
+NegotiationOnlyWhenStrict == TRUE
 DeleteRemovesTags == \A t \in st.tags : ManifestOf(st, t[1], t[2], u) = t[3]
 =============================================================================
